@@ -1487,8 +1487,8 @@ class ktensor:
         [[ 0.70710678...  0.70710678...]
          [ 0.70710678... -0.70710678...]]
         """
-        if n not in range(self.ndims):
-            assert False, "n must be a mode of the ktensor"
+        if n not in range(self.ndims) or not 0 < r <= self.shape[n]:
+            assert False, "n must be a mode and r between 1 and the extent of mode n"
         M = self.weights[:, None] @ self.weights[:, None].T
         for i in range(self.ndims):
             if i != n:
